@@ -41,7 +41,7 @@ def match_known(known, prop, rec):
     for k in known:
         if k.get('status') != 'open': continue
         if k['property'] != prop: continue
-        if k.get('fn') and k['fn'] != rec['case'].get('fn'): continue
+        if k.get('fn') and rec['case'].get('fn') not in k['fn'].split('|'): continue
         if not re.search(k['label_regex'], rec['label']): continue
         when = k.get('when')
         if when:
